@@ -94,6 +94,7 @@ PROPS['C11'] = {
         dict(name='chunk_u64_le2p31', kernel='C11_bulk.cpp', prefix='chunk_', mode='seq', inline=20000, unwind=34, lower_defs=['-DSHAPE=std::uint64_t'], params=[0, 1], unwind_obligation=True),
         dict(name='chunk_i32_le2p31', kernel='C11_bulk.cpp', prefix='chunk_', mode='seq', inline=20000, unwind=34, lower_defs=['-DSHAPE=std::int32_t'], params=[0, 1], unwind_obligation=True),
         dict(name='bulk_run_W1_n20', kernel='C11_bulk_run.cpp', prefix='run_', mode='seq', inline=20000, unwind=10, lower_defs=['-DNMAX=20'], params=[1], covers=[0], timeout=1800),
+        dict(name='bulk_conc_W2_n3', kernel='C11_bulk_run.cpp', prefix='brc_', mode='res', inline=20000, R=3, BMAX=60, unwind=6, lower_defs=['-DNMAX=3', '-DCONC', '-DNTHREADS=2'], covers=[0], timeout=3000, mem_gb=20, tiers=('thorough',), unwind_rules=[(r'create_work', 26)]),
         dict(name='bulk_run_W2_n24', kernel='C11_bulk_run.cpp', prefix='run_', mode='seq', inline=20000, unwind=12, lower_defs=['-DNMAX=24'], params=[2], covers=[0], timeout=3600, tiers=('thorough',), unwind_rules=[(r'create_work', 26)]),
     ] + [
         dict(name='tile_u32_W%d' % w, kernel='C11_bulk.cpp', prefix='tile_', mode='seq', inline=20000, unwind=34, lower_defs=['-DSHAPE=std::uint32_t'], params=[w], covers=[0],
